@@ -364,6 +364,7 @@ impl<'a> Driver<'a> {
             | Action::Fsync { n, .. }
             | Action::Apply { n, .. }
             | Action::Propose { n, .. }
+            | Action::ProposeBatch { n, .. }
             | Action::ProposeConf { n, .. }
             | Action::ReadIndex { n, .. }
             | Action::Transfer { n, .. }
@@ -580,6 +581,8 @@ impl<'a> Driver<'a> {
             // leave joint
             return Action::ProposeConf { n, id, v1: false, transition: 0, changes: vec![] };
         }
+        let mut conf = conf;
+        conf.learners.retain(|x| universe.contains(x)); // never promote an id that can never be started
         let members = conf.members();
         let outside: Vec<NodeId> = universe.iter().filter(|x| !members.contains(x)).cloned().collect();
         let mut changes: Vec<Change> = Vec::new();
@@ -616,7 +619,10 @@ impl<'a> Driver<'a> {
     fn client_op(&mut self) -> Result<(), Violation> {
         let p = self.p;
         let ws = [p.w_propose, p.w_conf, p.w_read, p.w_transfer, p.w_compact, p.w_knob, p.w_reqsnap, p.w_storage_fault, p.w_misc, p.w_bogus];
-        let which = self.rng.weighted(&ws);
+        let mut which = self.rng.weighted(&ws);
+        if self.calm && (which == 1 || which == 3) {
+            which = 0; // the lock-step scenario excludes membership changes and requested transfers
+        }
         match which {
             0 => {
                 if let Some(n) = self.target_node(700) {
@@ -633,6 +639,17 @@ impl<'a> Driver<'a> {
             1 => {
                 if let Some(n) = self.target_node(800) {
                     let a = self.gen_conf_change(n);
+                    // some applications batch proposals into one MsgPropose
+                    let a = if self.rng.pm(150) {
+                        if let Action::ProposeConf { n, id, v1, transition, changes } = a {
+                            self.next_id += 8;
+                            Action::ProposeBatch { n, id: id * 1000 + 500_000_000, before: self.rng.range(0, 2) as u8, after: self.rng.range(0, 2) as u8, conf: Some((v1, transition, changes)) }
+                        } else {
+                            a
+                        }
+                    } else {
+                        a
+                    };
                     self.act(a)?;
                 }
             }
@@ -907,7 +924,7 @@ impl<'a> Driver<'a> {
                 None => continue,
             };
             let conf = self.world.nodes[&l].obs.conf.clone();
-            let mut voters: Vec<NodeId> = conf.voters.iter().cloned().filter(|v| *v != l && self.world.nodes[v].running()).collect();
+            let mut voters: Vec<NodeId> = conf.voters.iter().cloned().filter(|v| *v != l && self.world.nodes.get(v).map(|x| x.running()).unwrap_or(false)).collect();
             self.rng.shuffle(&mut voters);
             let need = conf.voters.len() / 2; // plus the leader = majority
             if voters.len() < need {
